@@ -63,6 +63,42 @@ class Ctx:
         self.notes.append(s)
 
 
+class RuleView:
+    """a view of a Ctx that keeps only some rules of a borrowed rule module and records them under another rule id
+    (one analysis serving a clause that two properties share)"""
+
+    def __init__(self, ctx, rename):
+        self._c = ctx
+        self._rename = dict(rename)
+
+    def __getattr__(self, name):
+        return getattr(self._c, name)
+
+    def facts(self, profile="dbg"):
+        return self._c.facts(profile)
+
+    def ok(self, rule, instance, loc="", detail=""):
+        if rule in self._rename:
+            self._c.ok(self._rename[rule], instance, loc, detail)
+
+    def bad(self, rule, key, loc, detail, path=None, **extra):
+        if rule in self._rename:
+            self._c.bad(self._rename[rule], key, loc, detail, path, **extra)
+
+    def check(self, cond, rule, key, loc, detail_bad, detail_ok="", path=None):
+        if rule in self._rename:
+            self._c.check(cond, self._rename[rule], key, loc, detail_bad, detail_ok, path)
+        return cond
+
+    def floor(self, rule, what, count, minimum):
+        if rule in self._rename:
+            return self._c.floor(self._rename[rule], what, count, minimum)
+        return count >= minimum
+
+    def note(self, s):
+        pass
+
+
 def load_known():
     p = os.path.join(VERIF, "known_findings.json")
     if not os.path.exists(p):
